@@ -355,7 +355,7 @@ template <class K> struct World {
     }
 
     struct DriverArgs {
-        Slot<K> *s; const Op *o; superlu_options_t opt; SuperMatrix B, X; S *b, *x; int nrhs, ld; R *ferr, *berr; R rpg, rcond;
+        Slot<K> *s; const Op *o; superlu_options_t opt; SuperMatrix B, X; S *b, *x; int nrhs, ld, ldx; R *ferr, *berr; R rpg, rcond;
         mem_usage_t mu; SuperLUStat_t stat; int_t info; void *work; int_t lwork;
     };
 
@@ -429,13 +429,13 @@ template <class K> struct World {
         if (o.colperm == MY_PERMC && o.fact == DOFACT) make_permc(o.permc_seed, n, s.perm_c);
         a.work = (o.lwork > 0) ? (void *)s.ws.work : nullptr; a.lwork = (int_t)o.lwork;
         r.lwork_used = o.lwork;
-        a.nrhs = o.nrhs; a.ld = n + o.ldpad;
-        a.b = cmalloc<S>((size_t)a.ld * std::max(1, a.nrhs)); a.x = cmalloc<S>((size_t)a.ld * std::max(1, a.nrhs));
+        a.nrhs = o.nrhs; a.ld = n + o.ldpad; a.ldx = n + (o.ldxpad >= 0 ? o.ldxpad : o.ldpad);
+        a.b = cmalloc<S>((size_t)a.ld * std::max(1, a.nrhs)); a.x = cmalloc<S>((size_t)a.ldx * std::max(1, a.nrhs));
         make_rhs(o, n, a.nrhs, a.ld, a.b);
-        { Op ox = o; ox.rhs_seed ^= 0x5555; make_rhs(ox, n, a.nrhs, a.ld, a.x); }
+        { Op ox = o; ox.rhs_seed ^= 0x5555; make_rhs(ox, n, a.nrhs, a.ldx, a.x); }
         std::vector<S> b_in(a.b, a.b + (size_t)a.ld * std::max(1, a.nrhs));
         K::Create_Dense_Matrix(&a.B, n, a.nrhs, a.b, a.ld, SLU_DN, K::dtype, SLU_GE);
-        K::Create_Dense_Matrix(&a.X, n, a.nrhs, a.x, a.ld, SLU_DN, K::dtype, SLU_GE);
+        K::Create_Dense_Matrix(&a.X, n, a.nrhs, a.x, a.ldx, SLU_DN, K::dtype, SLU_GE);
         a.ferr = cmalloc<R>(std::max(1, a.nrhs)); a.berr = cmalloc<R>(std::max(1, a.nrhs));
         for (int j = 0; j < std::max(1, a.nrhs); j++) a.ferr[j] = a.berr[j] = (R)-7;
         a.rpg = (R)-7; a.rcond = (R)-7; a.info = -777; a.mu.for_lu = -7; a.mu.total_needed = -7;
@@ -444,7 +444,7 @@ template <class K> struct World {
             snap_A(s, pre_args, ""); pre_args.add("perm_c", s.perm_c, n * sizeof(int)); pre_args.add("perm_r", s.perm_r, n * sizeof(int));
             pre_args.add("etree", s.etree, n * sizeof(int)); pre_args.val("equed", s.equed[0]); pre_args.add("R", s.Rs, n * sizeof(R)); pre_args.add("C", s.Cs, n * sizeof(R));
             if (s.haveLU) snap_lu(s, pre_args);
-            if (query) { pre_args.add("B", a.b, sizeof(S) * (size_t)a.ld * std::max(1, a.nrhs)); pre_args.add("X", a.x, sizeof(S) * (size_t)a.ld * std::max(1, a.nrhs)); }
+            if (query) { pre_args.add("B", a.b, sizeof(S) * (size_t)a.ld * std::max(1, a.nrhs)); pre_args.add("X", a.x, sizeof(S) * (size_t)a.ldx * std::max(1, a.nrhs)); }
         }
         std::vector<int> prev_permr; if (readopt) prev_permr.assign(s.perm_r, s.perm_r + n);
         Snapshot prevLU; if (readopt && cfg.capture) snap_lu(s, prevLU);
@@ -467,7 +467,7 @@ template <class K> struct World {
                 Snapshot post; snap_A(s, post, ""); post.add("perm_c", s.perm_c, n * sizeof(int)); post.add("perm_r", s.perm_r, n * sizeof(int));
                 post.add("etree", s.etree, n * sizeof(int)); post.val("equed", s.equed[0]); post.add("R", s.Rs, n * sizeof(R)); post.add("C", s.Cs, n * sizeof(R));
                 if (s.haveLU) snap_lu(s, post);
-                post.add("B", a.b, sizeof(S) * (size_t)a.ld * std::max(1, a.nrhs)); post.add("X", a.x, sizeof(S) * (size_t)a.ld * std::max(1, a.nrhs));
+                post.add("B", a.b, sizeof(S) * (size_t)a.ld * std::max(1, a.nrhs)); post.add("X", a.x, sizeof(S) * (size_t)a.ldx * std::max(1, a.nrhs));
                 std::string d = snap_diff(pre_args, post);
                 if (!d.empty()) viol(r, "query-mutates", d);
                 if (!(r.query_estimate > 0) || !(a.mu.total_needed > 0)) viol(r, "query-estimate", "estimate not positive");
@@ -529,7 +529,7 @@ template <class K> struct World {
         if (cfg.capture) {
             if (solved) {
                 std::vector<S> xs((size_t)n * a.nrhs);
-                for (int j = 0; j < a.nrhs; j++) memcpy(&xs[(size_t)j * n], &a.x[(size_t)j * a.ld], n * sizeof(S));
+                for (int j = 0; j < a.nrhs; j++) memcpy(&xs[(size_t)j * n], &a.x[(size_t)j * a.ldx], n * sizeof(S));
                 sn.add("X", xs.data(), xs.size() * sizeof(S));
                 if (!ilu) { sn.add("ferr", a.ferr, a.nrhs * sizeof(R)); sn.add("berr", a.berr, a.nrhs * sizeof(R)); }
             }
@@ -545,8 +545,17 @@ template <class K> struct World {
             }
             if (r.cls == XC_SINGULAR && !ilu) sn.val("rpg", a.rpg);
         }
+        if (factored_now && have_factors && (r.cls == XC_OK || r.cls == XC_ILLCOND) && (!ilu || r.info == 0) && serr.empty()) { // (gsisx with replaced pivots and PivotGrowth returns before reporting) // (for_lu was preset to -7: a call that does not report at all is caught too)
+            // reported memory usage describes the factors this call returned: bytes of the stored values, of the row-index arrays and
+            // of the pointer arrays (sup_to_col/col_to_sup hold int, every other index array int_t); 16 bytes + float rounding tolerated
+            const SCformat *Ls = (const SCformat *)s.L.Store; const NCformat *Us = (const NCformat *)s.U.Store;
+            double idx = (double)sizeof(int_t), ns = (double)Ls->nzval_colptr[n], nl = (double)Ls->rowind_colptr[n], nu = (double)Us->colptr[n];
+            double expect = (ns + nu) * sizeof(S) + idx * (nl + nu) + (2.0 * n + 1.0) * 4 + (2.0 * n + 2.0) * idx + (n + 1.0) * idx;
+            if (!(std::fabs((double)a.mu.for_lu - expect) <= 16 + 1e-6 * expect))
+                viol(r, "mem-usage", "for_lu " + std::to_string(a.mu.for_lu) + " does not describe the returned factors: " + std::to_string(expect) + " bytes are used");
+        }
         if (a.nrhs > 0 && !padding_intact(n, a.nrhs, a.ld, a.b)) viol(r, "padding", "rows of B beyond n were written");
-        if (a.nrhs > 0 && !padding_intact(n, a.nrhs, a.ld, a.x) && !query) {
+        if (a.nrhs > 0 && !padding_intact(n, a.nrhs, a.ldx, a.x) && !query) {
             Op ox = o; (void)ox; /* X padding is pre-filled with the same sentinel pattern by make_rhs */ viol(r, "padding", "rows of X beyond n were written");
         }
         if (r.cls == XC_SINGULAR && !ilu && !query) {
@@ -591,6 +600,30 @@ template <class K> struct World {
                             else if (dm != 0) viol(r, "singular-pivot", "info=" + std::to_string(r.info) + " but U(info,info) is not exactly zero");
                         }
                     }
+                    // ... and it is the first one: every pivot before it is non-zero (those columns were finished before anything went wrong)
+                    // (no overflow excuse: [sdcz]pivotL never selects an exactly zero pivot while the column has a non-zero candidate, and reports the column otherwise)
+                    for (long j = 0; j < k; j++) {
+                        int sj = Ls->col_to_sup[j]; if (sj < 0 || sj > Ls->nsuper) break;
+                        int fs = Ls->sup_to_col[sj]; long nr = Ls->rowind_colptr[fs + 1] - Ls->rowind_colptr[fs];
+                        if (!(j - fs < nr && Ls->nzval_colptr[j + 1] - Ls->nzval_colptr[j] == nr)) break;
+                        S d = ((const S *)Ls->nzval)[Ls->nzval_colptr[j] + (j - fs)];
+                        long double dm = std::fabs((long double)ScalarOps<S>::re(d)) + std::fabs((long double)ScalarOps<S>::im(d));
+                        if (!(dm == dm)) break; // NaN: overflow upstream
+                        if (dm == 0) { viol(r, "singular-pivot", "info=" + std::to_string(r.info) + " but U(" + std::to_string(j + 1) + "," + std::to_string(j + 1) + ") is already exactly zero: an earlier zero pivot was used and not reported"); break; }
+                    }
+                }
+            }
+            if ((r.cls == XC_OK || r.cls == XC_ILLCOND) && cfg.chk_identity && factored_now) {
+                // info = 0: no pivot is exactly zero (same reasoning; read from the supernodes, no overflow excuse needed)
+                const SCformat *Ls = (const SCformat *)s.L.Store;
+                for (long j = 0; j < n; j++) {
+                    int sj = Ls->col_to_sup[j]; if (sj < 0 || sj > Ls->nsuper) break;
+                    int fs = Ls->sup_to_col[sj]; long nr = Ls->rowind_colptr[fs + 1] - Ls->rowind_colptr[fs];
+                    if (!(j - fs < nr && Ls->nzval_colptr[j + 1] - Ls->nzval_colptr[j] == nr)) break;
+                    S d = ((const S *)Ls->nzval)[Ls->nzval_colptr[j] + (j - fs)];
+                    long double dm = std::fabs((long double)ScalarOps<S>::re(d)) + std::fabs((long double)ScalarOps<S>::im(d));
+                    if (!(dm == dm)) break;
+                    if (dm == 0) { viol(r, "singular-pivot", "info=0 but U(" + std::to_string(j + 1) + "," + std::to_string(j + 1) + ") is exactly zero"); break; }
                 }
             }
             if (!ovf && solved && cfg.chk_residual) {
@@ -600,7 +633,7 @@ template <class K> struct World {
                 if (s.storage == 1) { trant = notran ? 1 : 0; notran = !notran; }
                 std::vector<cx> Xh((size_t)n * a.nrhs), Bh((size_t)n * a.nrhs);
                 for (int j = 0; j < a.nrhs; j++) for (int i = 0; i < n; i++) {
-                    S xv = a.x[i + (size_t)j * a.ld], bv = a.b[i + (size_t)j * a.ld];
+                    S xv = a.x[i + (size_t)j * a.ldx], bv = a.b[i + (size_t)j * a.ld];
                     cx xc((ld)ScalarOps<S>::re(xv), (ld)ScalarOps<S>::im(xv)), bc((ld)ScalarOps<S>::re(bv), (ld)ScalarOps<S>::im(bv));
                     if (notran) { if (colequ) xc /= (ld)s.Cs[i]; } else { if (rowequ) xc /= (ld)s.Rs[i]; }
                     Xh[i + (size_t)j * n] = xc; Bh[i + (size_t)j * n] = bc; // B was scaled in place by the driver
@@ -681,7 +714,7 @@ template <class K> struct World {
 
     // Computational routines called one by one: get_perm_c, sp_preorder, gstrf/gsitrf, gstrs, gsrfs, gscon, QuerySpace
     struct PipeArgs { Slot<K> *s; const Op *o; superlu_options_t opt; SuperMatrix AC; bool haveAC; SuperLUStat_t stat; int_t info; void *work; int_t lwork; int phase;
-                      SuperMatrix B, X; S *b, *x; int nrhs, ld; R *ferr, *berr; R rcond; int info2; mem_usage_t mu; bool ilu; };
+                      SuperMatrix B, X; S *b, *x; int nrhs, ld, ldx; R *ferr, *berr; R rcond; int info2; mem_usage_t mu; bool ilu; };
     static void body_pipe_factor(World *w, void *p) {
         PipeArgs *a = (PipeArgs *)p; Slot<K> &s = *a->s;
         if (a->o->colperm != MY_PERMC) get_perm_c(a->o->colperm, &s.A, s.perm_c);
